@@ -6,6 +6,9 @@ CHECKS = {
  "C01": dict(cat="model_checking", tech="TLA+ kernel spec: exact-rational detailed balance in TLC + refinement of the operational tree spec + replay of every TLC behaviour into real nuts::draw",
    text="TLC proves detailed balance, stochasticity and mirrored-trajectory for the denotational NUTS kernel on exhaustive bounded orbit families (depth 1 all U-turn tables; depth 2 apex families), proves the operational tree spec induces that kernel on random complete orbits, and every behaviour of the operational spec up to depth 3 (all directions, leapfrog outcomes, U-turn answers, accept decisions) is replayed step by step into the real tree builder with scripted Hamiltonian and RNG. A change to selection probabilities, U-turn operands or stop rules is a conformance mismatch against a spec shown reversible.",
    note="balance enumerated to depth 2 (quick) / 3 (thorough); acceptance probabilities compared at 1e-12 and by RNG words 1e-9 around p; real integrator contribution covered under C02/C03", ref="5/C01"),
+ "C03": dict(cat="model_checking", tech="TLA+ operational tree spec (TLC invariants over all behaviours) + trace validation of hook events of real chains against it",
+   text="TLC checks the C03 inequalities, draw membership, stop exactness and maxdepth-flag rules on every behaviour of the operational tree spec for all small option combinations; every hook event and every API output of thousands of draws of real chains (3 NUTS presets, Euclidean/ExactNormal, depth/mindepth/extra/energy-limit/integration-time options, 9 densities, injected faults) must be explained line by line by the trace spec, which carries the identity (bit pattern hash) of the state selected as draw through every merge.",
+   note="state identity by bit pattern hash; merge arithmetic, energy_error and gradient identity are harness-side predicates; interleavings not relevant (single chain)", ref="5/C03"),
 }
 NOT_APPLICABLE = {
  "C19": "encode/decode fidelity of a plain data structure plus equality of two deterministic runs: no state machine, schedule, history or fault to specify in TLA+ (DESIGN.md 5/C19)",
